@@ -85,6 +85,10 @@ var (
 	tAB2    = u.F("tAB2", "", "{A;{A@n}}")
 	tIown2  = u.F("tIown2", "", "{IAB}", u.As("IAB", "IA")) // the field's own type is one of the listed interfaces
 	tIownN  = u.F("tIownN", "", "{{IAB@n}}", u.As("IA", "IAB"))
+	// As on a result object that also has a group field, before or after the plain one
+	tGAasI = u.F("tGAasI", "", "{A+g;A}", u.As("IA"))
+	tAGasI = u.F("tAGasI", "", "{A;A+g}", u.As("IA"))
+	tGBasI = u.F("tGBasI", "", "{B+h;{A@n}}", u.As("IA", "IAB"))
 	// probes
 	qI      = u.F("qI", "IA", "")
 	qII     = u.F("qII", "IAB", "")
@@ -127,6 +131,7 @@ func c09Units(tier string) []Unit {
 	add("tags-and-nesting", tags, 3)
 	add("duplicates", dups, 3)
 	add("as-on-result-objects", []*uFunc{tA, tAasI, tAasIAB, tAnn, tAnnAsI, tABasI, tAB2}, 3)
+	add("as-on-result-objects-with-groups", []*uFunc{tA, tGAasI, tAGasI, tGBasI, kAn, tAasI}, 3)
 	add("as-on-interface-fields", []*uFunc{tIown2, tIownN, kIplain, kIboth}, 3)
 	if !q {
 		add("options-4", []*uFunc{kA, kAn, kAg, kAasI, kAnAsI, kAgAsI}, 4)
